@@ -37,6 +37,7 @@
 #include "common.h"
 #include "bitserializer/bit_serializer.h"
 #include "bitserializer/convert.h"
+#include <algorithm>
 #include <charconv>
 #include <cstring>
 #include <limits>
@@ -234,8 +235,11 @@ static long min_chars(long nd, long k) {
 // [charconv.to.chars]: "the smallest number of characters such that ... from_chars recovers value exactly".
 // Is there a decimal with fewer significant digits that reads back as x AND can be written with fewer characters?
 template <class T> static bool fewer_chars_exists(const std::string& digits, long e10, bool neg, T x, long textlen) {
-	for (size_t n = 1; n < digits.size(); ++n) {
+	// an n-digit decimal that reads back as x can be padded to n+1 digits, so walking downwards from one digit
+	// less than the text we may stop at the first length that has no such decimal
+	for (size_t n = digits.size() - 1; n >= 1; --n) {
 		std::string d = digits.substr(0, n);
+		bool found = false;
 		for (int up = 0; up < 2; ++up) {
 			std::string c = d; long e = e10;
 			if (up) {
@@ -245,9 +249,11 @@ template <class T> static bool fewer_chars_exists(const std::string& digits, lon
 			}
 			std::string t = std::string(neg ? "-" : "") + "0." + c + "e" + std::to_string(e);
 			if (!same_bits(strto<T>(t.c_str()), x)) continue;
+			found = true;
 			while (c.size() > 1 && c.back() == '0') c.pop_back();
 			if (min_chars((long)c.size(), e - (long)c.size()) < textlen) return true;
 		}
+		if (!found) break;
 	}
 	return false;
 }
